@@ -226,6 +226,7 @@ class SartRef:
             self.g = float("inf")
         if not np.isfinite(self.g):
             self.g = float("inf")
+        self.g = self.g * (1 + 1e-12) + 1e-13       # g itself is a computed quantity
         try:
             self.wnorm_s = float(np.linalg.norm(self.W / self.s[None, :], 2))
         except np.linalg.LinAlgError:
@@ -234,20 +235,24 @@ class SartRef:
         self.absL = None if self.L is None else np.abs(self.L)
         self.bb = float(np.dot(self.b, self.b))
 
-    def step(self, x, yhat):
-        """One application of the rule; returns (x_new, yhat_new, local rounding bound per component)."""
+    def step(self, x, yhat, spread=0.0):
+        """One application of the rule; returns (x_new, yhat_new, local rounding bound per component).
+
+        spread = component-wise bound on how far the *other* execution's current iterate may be from x: its local
+        rounding errors scale with its own iterate, so the bound is evaluated at |x| + spread."""
         m, n = self.m, self.n
         with np.errstate(all="ignore"):
             diff = self.b - yhat
             upd = self.P.T @ diff
             xn = x + self.gain * upd
-            q = np.abs(self.b) + self.absW @ np.abs(x)
-            delta = EPS * (n + m + 8) * self.gain * (self.P.T @ q) + 4 * EPS * np.abs(x)
+            xa = np.abs(x) + spread
+            q = np.abs(self.b) + self.absW @ xa
+            delta = EPS * (n + m + 8) * self.gain * (self.P.T @ q) + 4 * EPS * xa
             if self.L is not None:
                 pen = self.beta * (self.L @ x)
                 xn = xn - pen
-                delta = delta + EPS * (n + 8) * abs(self.beta) * (self.absL @ np.abs(x))
-            delta = delta + 2 * EPS * np.abs(xn)
+                delta = delta + EPS * (n + 8) * abs(self.beta) * (self.absL @ xa)
+            delta = delta + 2 * EPS * (np.abs(xn) + spread)
             xn = np.where(xn < 0, 0.0, xn)
             yn = self.W @ xn
         return xn, yn, delta
@@ -265,8 +270,8 @@ class SartRef:
         borderline = []
         stopped_at = None
         for k in range(max_iterations):
-            x, yhat, delta = self.step(x, yhat)
             with np.errstate(all="ignore"):
+                x, yhat, delta = self.step(x, yhat, E / self.s)
                 E = self.g * E + safety * float(np.linalg.norm(self.s * delta))
                 yy = float(np.dot(yhat, yhat))
                 c = (self.bb - yy) / self.bb if self.bb != 0 else float("nan")
